@@ -1,6 +1,7 @@
 (* C07 - each encoder emits only valid documents that an independent decoder reads back.
    Statements only; proofs are in Cbor/RoundtripProofs.v (CBOR). *)
-From SF Require Import Base.Prelude Base.Utf8 Core.Events Cbor.Spec Cbor.Enc Cbor.RoundtripProofs Json.Enc Json.EncProofs.
+From SF Require Import Base.Prelude Base.Utf8 Core.Events Cbor.Spec Cbor.Enc Cbor.RoundtripProofs Json.Enc Json.EncProofs Ubjson.Spec Ubjson.Enc Ubjson.Img.
+From SF Require Ubjson.RoundtripProofs.
 
 (* CBOR.  For every well-formed tree (= every well-formed event stream describing one
    value: any nesting, announced and unknown lengths, every scalar kind, the typed
@@ -10,7 +11,7 @@ From SF Require Import Base.Prelude Base.Utf8 Core.Events Cbor.Spec Cbor.Enc Cbo
    consuming all of them. *)
 Theorem C07_cbor : forall t, wf_tree t = true -> tree_small t = true ->
   exists bs, cbor_encode (flatten t) = Some bs /\ cbor_decode bs = RValue (cv (value_of t)) [].
-Proof. exact RoundtripProofs.C07_cbor. Qed.
+Proof. exact SF.Cbor.RoundtripProofs.C07_cbor. Qed.
 Print Assumptions C07_cbor.
 
 (* Streams of several documents written through one encoder: the reference decoder
@@ -18,7 +19,7 @@ Print Assumptions C07_cbor.
 Theorem C07_cbor_stream : forall ts, forallb wf_tree ts = true -> forallb tree_small ts = true ->
   exists bs, cbor_encode (flat_map flatten ts) = Some bs /\
     cbor_decode_all (S (length bs)) bs = Some (map (fun t => cv (value_of t)) ts).
-Proof. exact RoundtripProofs.C07_cbor_stream. Qed.
+Proof. exact SF.Cbor.RoundtripProofs.C07_cbor_stream. Qed.
 Print Assumptions C07_cbor_stream.
 
 (* The same from any encoder state (in the middle of any enclosing document, after any
@@ -85,3 +86,13 @@ Theorem C07_json_radix : forall (ffmt : Z -> Z -> bytes) cfg e w bits,
     (tok = ffmt w bits \/ exists idx, tok = firstn idx (ffmt w bits) ++ [46;48] ++ skipn idx (ffmt w bits)).
 Proof. exact EncProofs.C07_json_radix. Qed.
 Print Assumptions C07_json_radix.
+
+(* UBJSON.  For every well-formed tree (lengths below 2^63) the encoder model accepts the
+   stream and the draft-12 reference decoder (Ubjson/Spec.v) reads the bytes back as
+   [ubj_img t]: the stream's value with the format's documented representation change
+   (unsigned integers above MaxInt64 as decimal strings; Ubjson/Img.v also models the
+   recorded finding for typed unsigned containers). *)
+Theorem C07_ubj : forall t, wf_tree t = true -> SF.Ubjson.RoundtripProofs.tree_small t = true ->
+  exists bs, ubj_encode (flatten t) = Some bs /\ ubj_decode bs = RValue (ubj_img t) [].
+Proof. exact SF.Ubjson.RoundtripProofs.C07_ubj. Qed.
+Print Assumptions C07_ubj.
